@@ -38,12 +38,12 @@ def qmul(a, b):
     return [aw * bx + ax * bw + ay * bz - az * by, aw * by + ay * bw + az * bx - ax * bz,
             aw * bz + az * bw + ax * by - ay * bx, aw * bw - ax * bx - ay * by - az * bz]
 
-def gen_elem(g, gd, valid=True):
+def gen_elem(g, gd, valid=True, nopi=False, kmax=40):
     out = []
     for kind, n in gd.eparts:
-        if kind == "lin": out += g.vecmag(n)
-        elif kind == "rot2": out += g.unit2() if valid else g.nonunit2()
-        elif kind == "rot4": out += g.unit4() if valid else g.nonunit4()
+        if kind == "lin": out += g.vecmag(n, kmax)
+        elif kind == "rot2": out += g.unit2(nopi=nopi) if valid else g.nonunit2()
+        elif kind == "rot4": out += g.unit4(nopi=nopi) if valid else g.nonunit4()
     return out
 
 def gen_near(g, gd, X):
